@@ -77,7 +77,7 @@ Definition implb' (a b : bool) : bool := negb a || b.
    unless one of the three listed defect patterns occurred *)
 Definition good_c03 (c : cfg) (x : ist) : bool :=
   let s := i_st x in let g := i_gs x in
-  reply_wf g && (g_clean g <=? 1)%nat && (g_log g <=? 1)%nat && (g_destroy g <=? 1)%nat && negb (g_panic g) &&
+  reply_wf g && (g_clean g <=? 1)%nat && (g_log g <=? 1)%nat && (g_destroy g <=? 1)%nat && negb (g_panic g) && negb (g_mixed g) &&
   implb' (quiescent s && no_defect s)
          (wdone s && cleaned s && (g_clean g =? 1)%nat && (g_ended g || i_dr x || g_term g || c_oneway c)) &&
   implb' (g_ended g && negb (c_oneway c)) (cleaned s).
@@ -178,8 +178,8 @@ Definition fam_filters1 : list cfg :=
   flat_map (fun p =>
   flat_map (fun v =>
   map (fun sv => mk false false false RouteForward 2 true 0 [] false 0
-                    [{| f_phase := p; f_code := 403; f_verdicts := [v] |}] [{| sf_verdicts := [sv] |}] [])
-      [VContinue; VStop; VTerm]) deny_verdicts) [0; 1; 2]%nat.
+                    [{| f_phase := p; f_code := 403; f_verdicts := [v] |}] [{| sf_code := 400; sf_verdicts := [sv] |}] [])
+      [VContinue; VStop; VTerm; VHijack; VDirect]) deny_verdicts) [0; 1; 2]%nat.
 Definition fam_filters2 : list cfg :=
   flat_map (fun pp =>
   flat_map (fun v1 => map (fun v2 =>
@@ -192,7 +192,7 @@ Definition fam_hijack_cont : list cfg :=
   flat_map (fun p => map (fun v2 =>
     mk false false false RouteForward 2 true 0 [] false 0
        [{| f_phase := p; f_code := 403; f_verdicts := [VHijackCont] |}; {| f_phase := p; f_code := 429; f_verdicts := [v2] |}]
-       [{| sf_verdicts := [] |}] [])
+       [{| sf_code := 400; sf_verdicts := [] |}] [])
     (VHijackCont :: deny_verdicts)) [0; 1; 2]%nat.
 
 (* larger retry budgets, status-code lists *)
@@ -200,5 +200,13 @@ Definition fam_retry : list cfg :=
   [mk false false false RouteForward 2 true 4 [] true 1 [] [] [PoolConnFail];
    mk false true false RouteForward 2 true 4 [503] false 2 [] [] [];
    mk false false false RouteForward 2 false 5 [] false 0 [] [] [PoolConnFail; PoolConnFail]].
+
+(* send filters that hijack / answer directly from the send phase (through the receive handler, as the transcoder filter does),
+   with retries: the upstream's 5xx-with-body is retried and the next attempt fails to connect / overflows *)
+Definition fam_send_hijack : list cfg :=
+  flat_map (fun sv => map (fun pool =>
+    mk false false false RouteForward 2 true 0 [] false 0 [{| f_phase := 0; f_code := 403; f_verdicts := [] |}]
+       [{| sf_code := 400; sf_verdicts := [sv; VContinue] |}] pool)
+    [[]; [PoolOk; PoolConnFail]; [PoolOk; PoolOverflow]]) [VContinue; VHijack; VDirect; VStop].
 
 Definition chunkn (n k : nat) (l : list cfg) : list cfg := firstn n (skipn (n * k) l).
